@@ -31,6 +31,8 @@ pub const ZW_WORDS: &[&str] = &[
     // display width = number of chars although not every char is one column wide (a wide and a zero-width character
     // cancel out), unevenly distributed around a hyphen split point
     "\u{5bbd}-a\u{301}", "\u{5bbd}\u{5bbd}-a\u{301}\u{301}b", "a\u{301}-\u{4f60}", "\u{7f}x-\u{4f60}", "\u{4f60}\u{7f}-ab",
+    // a zero-width character in the *last* piece of a force-broken word
+    "abcde\u{7f}", "abcd\u{7f}e", "wxyz\u{200b}", "abcdefgh\u{301}",
 ];
 pub const CTRL_WORDS: &[&str] = &["\t", "a\tb", "\r", "a\rb", "\u{0}", "\u{b}", "\u{c}", "\u{2028}", "a\u{7}", "ab\u{7f}", "\u{7f}x", "a\u{1}b", "x\u{9f}"];
 pub const PUNCT_WORDS: &[&str] = &["[", "]", "( a )", "[ foo ]", "bar !", "\u{ab}", "\u{bb}", "a/b", "http://x.y/z", "$1", "50%", "a,b", "\"q\"", ",", ".", ";", ":", "'", "x ,"];
@@ -298,11 +300,12 @@ pub fn gen_opts(r: &mut Rng, c: &OptCfg, width: usize) -> Opts {
     }
     o.bw = r.chance(1, 2);
     o.sep = if FULL && r.chance(1, 2) { Sep::Uax } else { Sep::Ascii };
-    o.splitter = match r.below(if c.custom_splitters { 8 } else { 6 }) {
+    o.splitter = match r.below(if c.custom_splitters { 9 } else { 6 }) {
         0 | 1 => Splitter::None,
         2..=5 => Splitter::Hyphen,
         6 => Splitter::Every2,
-        _ => Splitter::Every3,
+        7 => Splitter::Every3,
+        _ => Splitter::Half,
     };
     let a = if FULL { *r.pick(c.algs) } else { 0 };
     o.alg = match a {
